@@ -196,7 +196,7 @@ fn attribute(msg: &Value) -> Option<String> {
 pub fn run_batch(cases: &[BCase], opts: &BOpts) -> Result<BTreeMap<String, BStatus>, String> {
     // rustc's memory grows with the crate: more than ~600 case modules per crate x 16 crates in parallel exhausts the
     // box (thorough C01/C03 were OOM-killed at 11 GB per rustc), so large batches are built in consecutive chunks
-    let chunk: usize = std::env::var("VERIF_B_CHUNK").ok().and_then(|s| s.parse().ok()).unwrap_or(9600);
+    let chunk: usize = std::env::var("VERIF_B_CHUNK").ok().and_then(|s| s.parse().ok()).unwrap_or(10400);
     if cases.len() <= chunk {
         return run_batch_chunk(cases, opts);
     }
